@@ -65,6 +65,20 @@ impl NetCtx {
         NetCtx { b, user, mini, labels, label_desc: label_desc.to_string(), sets, props, canon, canon_col_vals }
     }
 
+    /// The same context with EVERY network variable available as a proposition (proposition i = variable i).
+    pub fn with_all_props(&self) -> NetCtx {
+        let n = self.b.n;
+        let props: Vec<usize> = (0..n).collect();
+        let names: Vec<String> = self.b.spec.vars.clone();
+        let mut user = self.user.clone();
+        user.props = names.clone();
+        let mut mini = self.mini.clone();
+        mini.props = names;
+        let mut labels = self.labels.clone();
+        labels.props = props.clone();
+        NetCtx { b: self.b.clone(), user, mini, labels, label_desc: self.label_desc.clone(), sets: self.sets.clone(), props, canon: self.canon.clone(), canon_col_vals: self.canon_col_vals.clone() }
+    }
+
     /// Same network, other interpretation of the labels; `sets` must be the symbolic versions of
     /// the masks (wild labels first, then domain labels), built once by the caller.
     pub fn relabel(&self, labels: Labels, desc: &str, sets: Vec<GraphColoredVertices>) -> NetCtx {
